@@ -400,6 +400,12 @@ def main(argv=None):
         obls = r.get("obligations", [])
         if r["status"] in ("unsupported", "timeout"):
             undecided.append((u, r.get("reason")))
+        elif r["status"] == "crash" and u.kind == "prove":
+            # the contract could not be evaluated on this code (e.g. a loop-carried local that an invariant names was
+            # renamed): that is "undecided", never an alarm - the bounded floor of the check decides (DESIGN 2.5)
+            undecided.append((u, "contract not applicable to this code: " + str(r.get("reason"))))
+            if verbose and r.get("trace"):
+                print(r["trace"])
         elif r["status"] == "crash":
             crashes.append((u, r.get("reason"), r.get("trace")))
         dis = sum(1 for o in obls if o["status"] == "discharged")
@@ -485,10 +491,16 @@ def main(argv=None):
         exit_code = 3
     decisive_undecided = [u for u, _ in undecided if getattr(u, "decisive", True) and u.kind == "prove" and not getattr(u, "floor", None)]
     level = getattr(mod, "LEVEL", "proof")
-    if level == "proof" and (n_obl == 0 or n_dis != n_obl):
-        # a proof-level claim needs every obligation discharged in this run
-        if exit_code == 0 and (undecided or n_obl == 0):
+    if exit_code == 0 and undecided:
+        # undecided proof units: the check still holds if a bounded floor of this check ran and passed; otherwise nothing
+        # decided the property on this code -> exit 2 (undecided), never a VIOLATION
+        floors_ok = [u for u in units if u.kind == "bounded" and results[u.id].get("status") == "ok"]
+        if not floors_ok:
             exit_code = 2
+        else:
+            print(f"NOTE {len(undecided)} proof unit(s) undecided; decided by the bounded floor(s) {[u.id for u in floors_ok]} (evidence level downgraded for this run)")
+    if exit_code == 0 and level == "proof" and n_obl == 0 and not bounded:
+        exit_code = 2
     ev = dict(
         property_id=prop, tier=tier, seed=seed, level=level,
         coverage=dict(
